@@ -470,5 +470,91 @@ fn main() {
         );
         let d = seen.lock().unwrap().len() as u64;
         ctx.add_distinct(d, d);
+
+        // (4) multi-record files read through every API, in particular the ones that REUSE one
+        // RecordBuf / Record: consecutive records differ in the presence (and length) of every optional
+        // field in both directions; each record is compared with its own expectation
+        ctx.rule(
+            "multi-record files: all ordered pairs + triples (full/X/full, empty/X/empty, X/empty/X, X/full/X) of a \
+             record set (everything present, everything missing, each optional field / INFO key / FORMAT key removed, \
+             shorter and missing values, ploidy 1-4) x fileformat x 5 read APIs (reused RecordBuf loop, record_bufs(), \
+             fresh buffer, reused lazy Record, records())",
+        );
+        let sets: Vec<Vec<(String, Rec)>> = FILE_FORMATS.iter().map(|&ff| gvcf::multi::record_set(ff)).collect();
+        for set in &sets {
+            for (name, r) in set {
+                if Rec::from_record_buf(&r.to_record_buf()) != *r {
+                    vmc::machinery(format!("multi-record set: {name} does not survive to_record_buf()"));
+                }
+            }
+        }
+        let seqs = gvcf::multi::sequences(sets[0].len());
+        let n_seq = seqs.len() as u64;
+        let files = std::sync::Mutex::new(std::collections::HashSet::new());
+        let describe = |i: u64| {
+            let fi = (i / n_seq) as usize;
+            let seq = &seqs[(i % n_seq) as usize];
+            let names: Vec<&str> = seq.iter().map(|&k| sets[fi][k].0.as_str()).collect();
+            format!(
+                "fileformat={}.{} header=gvcf::gen_::rich_header(ff,2 samples) records=gvcf::multi::record_set(ff)[{names:?}] i.e. {}",
+                FILE_FORMATS[fi].0,
+                FILE_FORMATS[fi].1,
+                seq.iter().map(|&k| sets[fi][k].1.show()).collect::<Vec<_>>().join(" ; ")
+            )
+        };
+        ctx.sweep("multi_record_reuse", n_seq * FILE_FORMATS.len() as u64, describe, |i| {
+            let fi = (i / n_seq) as usize;
+            let seq = &seqs[(i % n_seq) as usize];
+            let header = &headers[fi];
+            let exp: Vec<&Rec> = seq.iter().map(|&k| &sets[fi][k].1).collect();
+            let rbs: Vec<_> = exp.iter().map(|r| r.to_record_buf()).collect();
+            let bytes = match io::vcf_write_file(header, &rbs) {
+                Ok(b) => b,
+                Err(f) => return Err(fail_violation("multi-write", &f, String::new(), "Ok (every record is valid)")),
+            };
+            {
+                use std::hash::{Hash, Hasher};
+                let mut h = std::collections::hash_map::DefaultHasher::new();
+                bytes.hash(&mut h);
+                files.lock().unwrap().insert(h.finish());
+            }
+            let text = || {
+                let t = String::from_utf8_lossy(&bytes);
+                t.lines().filter(|l| !l.starts_with("##")).collect::<Vec<_>>().join("\n")
+            };
+            for (api, api_name) in io::READ_APIS.iter().enumerate() {
+                let got = match io::vcf_read_file(&bytes, api, exp.len()) {
+                    Ok(g) => g,
+                    Err(f) => {
+                        let mut v = fail_violation("multi-read", &f, String::new(), "every record reads back");
+                        v.fingerprint = format!("{} api={api_name}", v.fingerprint);
+                        v.observed = format!("{} ; file records: {}", v.observed, text());
+                        return Err(v);
+                    }
+                };
+                if got.len() != exp.len() {
+                    return Err(Violation::new(
+                        format!("stage=multi-read api={api_name} symptom=record-count"),
+                        String::new(),
+                        format!("{} records", exp.len()),
+                        format!("{}", got.len()),
+                    ));
+                }
+                for (k, (e, g)) in exp.iter().zip(&got).enumerate() {
+                    if let Some(d) = diff_rec(e, g, FloatMode::NanEq) {
+                        let position = if k == 0 { "first" } else { "after-another-record" };
+                        return Err(Violation::new(
+                            format!("stage=multi-read api={api_name} position={position} {}", d.fp()),
+                            String::new(),
+                            format!("record {k} of the file == the record written at position {k}"),
+                            format!("{} ; file records: {}", d.detail, text()),
+                        ));
+                    }
+                }
+            }
+            Ok(())
+        });
+        let d = files.lock().unwrap().len() as u64;
+        ctx.add_distinct(d, d);
     });
 }
